@@ -42,50 +42,82 @@ def _first_method(classes, c, name):
     return m[0] if m else None
 
 
-class _Attrs:
-    """attributes of self reached directly or through loop / comprehension variables inside one function"""
+def _attr_of(e, env):
+    if isinstance(e, ast.Attribute) and isinstance(e.value, ast.Name) and e.value.id == "self":
+        return e.attr
+    if isinstance(e, ast.Name) and e.id in env:
+        return env[e.id]
+    return None
 
-    def __init__(self, fn):
-        self.var = {}
-        for n in ast.walk(fn):
-            if isinstance(n, (ast.For, ast.comprehension)):
-                a = self.attr_of(n.iter)
-                if a is None and isinstance(n.iter, ast.Call):
-                    for arg in n.iter.args:
-                        a = a or self.attr_of(arg)
-                if a is not None:
-                    for x in ast.walk(n.target):
-                        if isinstance(x, ast.Name):
-                            self.var[x.id] = a
 
-    def attr_of(self, e):
-        if isinstance(e, ast.Attribute) and isinstance(e.value, ast.Name) and e.value.id == "self":
-            return e.attr
-        if isinstance(e, ast.Name) and e.id in self.var:
-            return self.var[e.id]
-        return None
+def _bind(target, it, env):
+    """loop / comprehension variables drawn from self.X (also through enumerate(...), zip(...)) stand for X"""
+    a = _attr_of(it, env)
+    if a is None and isinstance(it, ast.Call):
+        for arg in it.args:
+            a = a or _attr_of(arg, env)
+    if a is None:
+        return env
+    env = dict(env)
+    for x in ast.walk(target):
+        if isinstance(x, ast.Name):
+            env[x.id] = a
+    return env
+
+
+def _scoped_calls(fn):
+    """every Call of the function with the variable environment valid at that point (loops and comprehensions scoped)"""
+    out = []
+
+    def go(n, env):
+        if isinstance(n, ast.For):
+            go(n.iter, env)
+            inner = _bind(n.target, n.iter, env)
+            for st in n.body + n.orelse:
+                go(st, inner)
+            return
+        if isinstance(n, (ast.ListComp, ast.SetComp, ast.GeneratorExp, ast.DictComp)):
+            inner = env
+            for g in n.generators:
+                go(g.iter, inner)
+                inner = _bind(g.target, g.iter, inner)
+                for c in g.ifs:
+                    go(c, inner)
+            for part in ([n.key, n.value] if isinstance(n, ast.DictComp) else [n.elt]):
+                go(part, inner)
+            return
+        if isinstance(n, ast.Call):
+            out.append((n, env))
+        for ch in ast.iter_child_nodes(n):
+            go(ch, env)
+    for st in fn.body:
+        go(st, {})
+    return out
 
 
 def _receivers(fn, method):
-    """attributes X with X.method(...) (or x.method(...) for x drawn from X), in source order, with repetitions"""
-    at = _Attrs(fn)
+    """attributes X with X.method(...) (or x.method(...) for x drawn from X), in source order, with repetitions;
+    "<super>" stands for super().method(...)"""
     out = []
-    for n in ast.walk(fn):
-        if isinstance(n, ast.Call) and isinstance(n.func, ast.Attribute) and n.func.attr == method:
-            a = at.attr_of(n.func.value)
+    for n, env in _scoped_calls(fn):
+        if isinstance(n.func, ast.Attribute) and n.func.attr == method:
+            r = n.func.value
+            if isinstance(r, ast.Call) and isinstance(r.func, ast.Name) and r.func.id == "super":
+                out.append((n.lineno, n.col_offset, "<super>"))
+                continue
+            a = _attr_of(r, env)
             if a is not None:
                 out.append((n.lineno, n.col_offset, a))
     return [a for _, _, a in sorted(out)]
 
 
 def _helper_args(fn):
-    at = _Attrs(fn)
     out = []
-    for n in ast.walk(fn):
-        if isinstance(n, ast.Call) and n.args:
+    for n, env in _scoped_calls(fn):
+        if n.args:
             name = n.func.id if isinstance(n.func, ast.Name) else n.func.attr if isinstance(n.func, ast.Attribute) else None
             if name in OPERAND_HELPERS:
-                a = at.attr_of(n.args[0])
+                a = _attr_of(n.args[0], env)
                 if a is not None:
                     out.append(a)
     return out
@@ -112,15 +144,26 @@ def extract_coverage(repo):
         children = set()
         for name in RENDER_METHODS:
             for f in _methods(classes, c, name):
-                children |= set(_receivers(f, "get_sql")) | set(_helper_args(f))
+                children |= (set(_receivers(f, "get_sql")) - {"<super>"}) | set(_helper_args(f))
         for f in _methods(classes, c, "replace_table"):
-            children |= set(_receivers(f, "replace_table"))
+            children |= set(_receivers(f, "replace_table")) - {"<super>"}
         for f in _methods(classes, c, "__init__"):
             children |= set(_wrapped_in_init(f))
-        nodes = _first_method(classes, c, "nodes_")
-        if nodes is None:
+        chain = _methods(classes, c, "nodes_")
+        if not chain:
             raise ValueError("class %s has no nodes_ at all" % c)
-        visited = _receivers(nodes, "nodes_")
+
+        def visits(k):
+            out = []
+            for a in _receivers(chain[k], "nodes_"):
+                if a == "<super>":
+                    if k + 1 >= len(chain):
+                        raise ValueError("%s.nodes_ calls super().nodes_() but no base class defines it" % c)
+                    out += visits(k + 1)
+                else:
+                    out.append(a)
+            return out
+        visited = visits(0)
         children |= set(visited)
         if children:
             rows.append((c, sorted(children), visited))
